@@ -65,6 +65,24 @@ def initial_meshes(rng, tier):
     for dims in ((1, 1, 1), (2, 1, 1)):
         p, t = U.hex_grid(*dims)
         out.append(('hex', 'MeshHex1', p, t))
+    # strongly tapered hexahedra with planar faces (frustum): centre = mean of the eight corners, not a diagonal midpoint
+    P = np.array([[0, 0, 0], [16, 0, 0], [16, 16, 0], [0, 16, 0], [7, 7, 8], [9, 7, 8], [9, 9, 8], [7, 9, 8]], dtype=float)
+    ref = U.REF_HEX        # local order of the code: corner (a, b, c) of the unit cube
+    def frustum_cell(P0):
+        idx = {(0, 0, 0): 0, (1, 0, 0): 1, (1, 1, 0): 2, (0, 1, 0): 3, (0, 0, 1): 4, (1, 0, 1): 5, (1, 1, 1): 6, (0, 1, 1): 7}
+        return [idx[tuple(int(v) for v in c)] for c in ref]
+    out.append(('hex', 'MeshHex1', P.T, np.array([frustum_cell(P)]).T))
+    P2 = np.vstack((P, np.array([[7, 7, 16], [9, 7, 16], [9, 9, 16], [7, 9, 16]], dtype=float)))     # a prism on top
+    c0 = frustum_cell(P)
+    c1 = [{0: 4, 1: 5, 2: 6, 3: 7, 4: 8, 5: 9, 6: 10, 7: 11}[v] for v in c0]
+    out.append(('hex', 'MeshHex1', P2.T, np.array([c0, c1]).T))
+    # trailing vertices used by no cell (stray nodes of a mesh file): legal for the constructors
+    for kind_, cls_, (p_, t_) in (('quad', 'MeshQuad1', U.quad_grid(2, 1)), ('tri', 'MeshTri1', U.tri_lattice(1, 1, (0,))),
+                                  ('line', 'MeshLine1', U.line_points([0, 1, 2])), ('tet', 'MeshTet1', U.tet_cubes(1, 5)),
+                                  ('hex', 'MeshHex1', U.hex_grid(1, 1, 1))):
+        extra = np.full((p_.shape[0], 2), 7.0)
+        extra[0, 1] = 9.0
+        out.append((kind_, cls_, np.hstack((p_, extra)), t_))
     # second-order classes with straight facets
     p, t = U.tri_lattice(2, 1, (0, 1))
     out.append(('tri', 'MeshTri2', p, t))
